@@ -94,6 +94,7 @@ _c14 = [
     H("c14_smh_alias_f64_n4", 600, "thorough", "superminhasher::get_jaccard_index_estimate::<f64>", "symbolic lengths <= 4"),
     H("c14_smh_free_f64_n6", 900, "thorough", "superminhasher::compute_superminhash_jaccard::<f64>", "symbolic lengths <= 6"),
     H("c14_smh_method_f64_m4", 600, "quick", "SuperMinHash::<f64>::get_jaccard_index_estimate on an arbitrary stored sketch", "m=4, other length <= 4"),
+    H("c14_smh_method_f64_m5", 900, "quick", "SuperMinHash::<f64>::get_jaccard_index_estimate, length not a multiple of 4", "m=5"),
     H("c14_smh_method_f32_m3", 600, "thorough", "SuperMinHash::<f32>::get_jaccard_index_estimate", "m=3"),
     H("c14_smh2_free_n3", 900, "quick", "superminhasher2::compute_superminhash_jaccard::<u64>: exact, symmetric, Err on unequal lengths", "length 3 (and 2 vs 3)"),
     H("c14_smh2_free_n4", 900, "thorough", "same", "length 4"),
@@ -119,6 +120,9 @@ for ty, ls, q in (("u8", (0, 1, 3, 6), (0, 3)), ("u16", (0, 1, 2, 3, 5), (0, 1, 
         _c18.append(H("c18_vec_%s_l%d" % (ty, l), 1500, "quick" if l in q else "thorough",
                       "Vec<%s>::get_sig: concatenated ne bytes, argument intact, injective (vs. a vector of equal or one-shorter length), all owners dropped once" % ty,
                       "length %d (concrete), all element values" % l))
+for ty in ("u8", "u16", "u32"):
+    _c18.append(H("c18_vec_%s_cap" % ty, 1500, "quick", "Vec<%s>::get_sig on a vector whose capacity exceeds its length (stale spare capacity): identity == the len elements only" % ty, "length 2, spare capacity 2-3"))
+_c18.append(H("c18_string_utf8", 1500, "quick", "String::get_sig == UTF-8 bytes for two symbolic characters up to U+D7FF (1-3 bytes each)", "2 chars"))
 _c18.append(H("c18_string_n3", 900, "quick", "String::get_sig == UTF-8 bytes (ASCII content)", "len 0..=3 symbolic"))
 SPECS["C18"] = dict(
     level="model_checking", harnesses=_c18,
@@ -201,10 +205,17 @@ SPECS["C05"] = dict(
 
 # --------------------------------------------------------------------------------------- C04
 _LN = ["f64::ln -> memoised monotone NaN-free function with ln(x)>0 iff x>1"]
+
+
+def _c04_ss_confirm(test_src, rdir):
+    import check_taint
+    return check_taint.c04_native_confirm(test_src, rdir)
+
+
 _c04 = [
-    H("c04_ss_step_u16_m2", 2400, "quick", "SetSketcher<u16>::sketch from an arbitrary Inv-state: registers == max(old, unpruned contribution of the item), Inv kept, shuffle reset", "m=2, any registers, any (b,a,q<2^40), any item, any generator output", stubs=_LN),
-    H("c04_ss_step_u16_m3", 3600, "thorough", "same", "m=3", stubs=_LN),
-    H("c04_ss_step_u32_m2", 2400, "thorough", "SetSketcher<u32>::sketch step", "m=2", stubs=_LN),
+    H("c04_ss_step_u16_m2", 2400, "quick", "SetSketcher<u16>::sketch from an arbitrary Inv-state: registers == max(old, unpruned contribution of the item), Inv kept, shuffle reset", "m=2, any registers, any (b,a,q<2^40), any item, any generator output", stubs=_LN, native_confirm=_c04_ss_confirm),
+    H("c04_ss_step_u16_m3", 3600, "thorough", "same", "m=3", stubs=_LN, native_confirm=_c04_ss_confirm),
+    H("c04_ss_step_u32_m2", 2400, "thorough", "SetSketcher<u32>::sketch step", "m=2", stubs=_LN, native_confirm=_c04_ss_confirm),
     H("c04_smh_step_f64_m2", 1800, "quick", "SuperMinHash<f64>::sketch from an arbitrary Inv-state: hsketch == position-wise min(old, unpruned contribution of the item); histogram/upper-bound invariant kept", "m=2"),
     H("c04_smh_step_f64_m3", 2400, "quick", "same", "m=3"),
     H("c04_smh_step_f64_m4", 3600, "thorough", "same", "m=4"),
@@ -275,15 +286,13 @@ _c09 = [
     H("c09_rev_densify_m3_p4", 1800, "thorough", "RevOptDensMinHash::end_sketch, populated bins = bit mask 0b100, same assertions; stream keys depend on (position, pass) only", "m=3; <= 4 passes", extra=_NU),
     H("c09_rev_densify_m3_p5", 1800, "thorough", "RevOptDensMinHash::end_sketch, populated bins = bit mask 0b101, same assertions; stream keys depend on (position, pass) only", "m=3; <= 4 passes", extra=_NU),
     H("c09_rev_densify_m3_p6", 1800, "thorough", "RevOptDensMinHash::end_sketch, populated bins = bit mask 0b110, same assertions; stream keys depend on (position, pass) only", "m=3; <= 4 passes", extra=_NU),
-    H("c09_opt_slice_full_m2", 1200, "quick", "OptDensMinHash: sketch_slice(&[a]) == sketch(a); end_sketch() from an arbitrary FULLY populated state", "m=2", extra=_NU),
+    H("c09_opt_slice_full_m2", 1200, "quick", "OptDensMinHash: sketch_slice(&[a]) == sketch(a) from an arbitrary FULLY populated state (item label concrete, its bin concrete via a preset slot draw, r and the state symbolic)", "m=2", extra=_NU),
     H("c09_opt_slice_full_m3", 1800, "thorough", "same", "m=3", extra=_NU),
-    H("c09_opt_slice_part_m3", 1800, "thorough", "same from a state with bins 0 and 2 populated", "m=3", extra=_NU),
-    H("c09_rev_slice_full_m2", 1200, "quick", "RevOptDensMinHash: sketch_slice(&[a]) == sketch(a); end_sketch() from an arbitrary fully populated state", "m=2", extra=_NU),
+    H("c09_rev_slice_full_m2", 1200, "quick", "RevOptDensMinHash: sketch_slice(&[a]) == sketch(a) from an arbitrary fully populated state", "m=2", extra=_NU),
     H("c09_rev_slice_full_m3", 1800, "thorough", "same", "m=3", extra=_NU),
-    H("c09_rev_slice_part_m3", 2400, "thorough", "same from a state with bins 0 and 2 populated", "m=3", extra=_NU),
-    H("c09_opt_slice_m2", 1800, "quick", "OptDensMinHash: sketch_slice(&[a,b]) == sketch(a); sketch(b); end_sketch() from the same arbitrary state (shared oracle)", "m=2", extra=_NU),
+    H("c09_opt_slice_m2", 3600, "thorough", "OptDensMinHash: sketch_slice(&[a,b]) == sketch(a); sketch(b); end_sketch() from the same arbitrary state (shared oracle)", "m=2", extra=_NU),
     H("c09_opt_slice_m3", 3600, "thorough", "same", "m=3", extra=_NU),
-    H("c09_rev_slice_m2", 1800, "quick", "RevOptDensMinHash: sketch_slice == item-wise + end_sketch", "m=2", extra=_NU),
+    H("c09_rev_slice_m2", 3600, "thorough", "RevOptDensMinHash: sketch_slice == item-wise + end_sketch", "m=2", extra=_NU),
     H("c09_rev_slice_m3", 3600, "thorough", "same", "m=3", extra=_NU),
     H("c09_opt_views_m2", 900, "quick", "OptDensMinHash views: float view == stored r, u64 view == stored hash, u32 view == murmur3_32(hash bytes, 127) at every position", "m=2"),
     H("c09_rev_views_m2", 900, "thorough", "RevOptDensMinHash views", "m=2"),
@@ -369,13 +378,13 @@ def _c07_confirm(test_src, rdir):
     return native_c07.confirm(test_src, rdir)
 
 
-_c07 = [H("c07_bounds_b%d" % i, 2400, "thorough" if i not in (0, 3) else "quick", "SetSketchParams::get_jaccard_bounds returns (no abort), lo<=hi, lo>=0, both finite", "b in [%s], every jac in [0,1]" % r, stubs=_PW, native_confirm=_c07_confirm)
+_c07 = [H("c07_bounds_b%d" % i, 2400, "thorough" if i not in (0, 6) else "quick", "SetSketchParams::get_jaccard_bounds returns (no abort), lo<=hi, lo>=0, both finite", "b in [%s], every jac in [0,1]" % r, stubs=_PW, native_confirm=_c07_confirm)
         for i, r in enumerate(["1.00001,1.0001", "1.0001,1.001", "1.001,1.01", "1.01,1.1", "1.1,1.3", "1.3,1.6", "1.6,2.0"])]
 _c07.append(H("c07_bounds_ball", 3600, "thorough", "same", "b in [1.00001, 2], every jac in [0,1]", stubs=_PW, native_confirm=_c07_confirm))
 SPECS["C07"] = dict(
     level="model_checking", harnesses=_c07,
     functions=["setsketcher::SetSketchParams::get_jaccard_bounds"],
-    bounds={"quick": "b in [1.00001,1.0001] and [1.01,1.1], every jac in [0,1] (all f64 values)", "thorough": "b in [1.00001, 2] split in 7 sub-ranges plus the whole range"},
+    bounds={"quick": "b in [1.00001,1.0001] and [1.6,2.0] (both ends of the range), every jac in [0,1] (all f64 values)", "thorough": "b in [1.00001, 2] split in 7 sub-ranges plus the whole range"},
     outside="b in (1, 1.00001); 'the interval contains the true Jaccard index within 1e-4' (real analysis over b^x) and the collision-probability clause (an expectation) are NOT decided",
     assumptions=["powf replaced by an arbitrary value inside its enclosure; sqrt, *, /, -, max are IEEE-exact in CBMC's float theory"],
     not_decided=["expected fraction of equal registers equals the collision probability (expectation)", "the interval contains the true Jaccard index up to 1e-4 (needs the real function b^x)"],
